@@ -1196,7 +1196,8 @@ impl ValueTable {
 	}
 
 	pub fn is_init(&self) -> bool {
-		self.file.map.read().is_some()
+		// The file may exist without its first entry if creation was interrupted.
+		self.file.map.read().is_some() && self.filled.load(Ordering::Relaxed) > 1
 	}
 
 	pub fn init_with_entry(&self, entry: &[u8]) -> Result<()> {
